@@ -45,7 +45,7 @@ struct Ent {   // one per created object; never re-used within a run
   // establisher
   int resolved; bool byHost; int64_t createdAt;
   // client
-  bool suspended, failedIO, closedCb; int fd; Socket* far; int64_t backlog; uint64_t accepted; uint64_t readBytes;
+  bool suspended, failedIO, closedCb; int fd; Socket* far; int64_t backlog; uint64_t accepted; uint64_t readBytes; uint64_t readySince;   /* poll round (+1) at which the driver first saw input pending on this registered client; 0 = none */
   // listener
   int port; int acceptPolicy; int connectAction;   /* establisher: what its completion callbacks do (0 nothing, 1 write to the new client, 2 suspend it, 3 reconnect from onAbolished) */
 };
@@ -171,6 +171,7 @@ void EstabCb::onAbolished() {
 void ClientCb::onRead() {
   checkLive(e, "onRead");
   if (e->suspended) fail("C14/onRead_while_suspended", "client #%d got onRead while suspended (not registered for reading)", e->id);
+  e->readySince = 0;
   byte buf[512]; usize got = 0;
   Server::Client* cl = (Server::Client*)e->handle;
   if (cl->read(buf, sizeof buf, got)) e->readBytes += got;
@@ -209,9 +210,26 @@ static bool allSettled() {
   return C.peersDone >= C.peersTotal;
 }
 static int burstDepth = 0;
+/* Bounded liveness inside the script: a pair client that is registered for reading and has input pending is dispatched within a few poll rounds - whatever else
+   is ready, even permanently (a suspended client whose peer hung up is reported by every epoll_wait).  Only judged when epoll_wait reports complete ready sets. */
+static void checkStarved() {
+  if (simdrv::knob(*C.spec, "epoll_fault_pct", 0) != 0 || burstDepth > 0) return;
+  int starved = -1; uint64_t rounds = 0;
+  { NoPreempt np;   /* oracle bookkeeping: not part of the simulated program (no yield points, no steps) */
+  uint64_t round = simnet::epollWaitCalls();
+  for (int i = 0; i < C.nent; ++i) { Ent& e = C.ent[i];
+    if (e.kind != K_CLIENT || e.removed || !e.alive || !e.handle || !e.far) continue;
+    bool waiting = !e.suspended && !e.failedIO && !e.closedCb && simnet::queued(e.fd) > 0;
+    if (!waiting) { e.readySince = 0; continue; }
+    if (!e.readySince) e.readySince = round + 1;
+    else if (round + 1 - e.readySince > 300 && starved < 0) { starved = e.id; rounds = round + 1 - e.readySince; }
+  } }
+  if (starved >= 0) fail("C14/readable_client_starved", "client #%d is registered for reading and has had input pending for %llu poll rounds without an onRead", starved, (unsigned long long)rounds);
+}
 static void execOp(int code, int slot, int64_t arg, Ent* self) {
   if (code == 0) {   // driver tick: next script operation
     if (C.stopped) return;
+    checkStarved();
     if (C.waitTicks > 0) { C.waitTicks--; return; }
     const RunSpec& s = *C.spec;
     while (C.pos < s.plan.size() && s.plan[C.pos].task != 0) C.pos++;
@@ -268,7 +286,8 @@ static void execOp(int code, int slot, int64_t arg, Ent* self) {
   case C_DOOMED: { /* a client with unsent data whose peer goes away: pair, write until data stays behind, optionally suspend, the far end closes (now, or later through client.peer_closes) */
     int sl = freeClientSlot(); if (sl < 0) break; Ent* e = newEnt(K_CLIENT, sl); if (!e) break; e->far = new Socket; Server::Client* c = C.srv->pair(e->ccb, *e->far); if (!c) { e->alive = false; e->removed = true; break; }
     e->handle = c; e->fd = (int)c->getSocket().getFileDescriptor(); C.clientSlot[sl] = e;
-    static byte buf[2048]; for (int i = 0; i < 40 && c->getSendBufferSize() == 0 && !e->failedIO; ++i) { usize post = 0; usize n = 1 + (usize)((arg + i * 131) % 2048); if (c->write(buf, n, &post)) e->accepted += n; else e->failedIO = true; }
+    bool noData = (arg / 6) % 8 == 0;   /* no unsent data: suspended with a dead peer, the client is reported by every poll round until somebody resumes it */
+    static byte buf[2048]; for (int i = 0; i < 40 && !noData && c->getSendBufferSize() == 0 && !e->failedIO; ++i) { usize post = 0; usize n = 1 + (usize)((arg + i * 131) % 2048); if (c->write(buf, n, &post)) e->accepted += n; else e->failedIO = true; }
     if (c->getSendBufferSize() > 0) probe("doomed_client_has_backlog");
     if ((arg / 2) % 3 != 0) { c->suspend(); e->suspended = true; }
     if (arg % 2 == 0) { e->far->close(); probe("pair_far_end_closed"); }
